@@ -54,6 +54,7 @@ type c11Scn struct {
 	Parts      []string `json:"parts,omitempty"`       // complete: bodies of the parts uploaded in the pre-state
 	OtherKey   string   `json:"other_key,omitempty"`   // an unrelated object that must never change
 	KillAt     int      `json:"kill_at,omitempty"`     // replay: only this crash point (0 = all)
+	Lock       bool     `json:"lock,omitempty"`        // the bucket is created with object lock; put/copy ask for a legal hold, complete: the upload was created with one
 	OracleOnly bool     `json:"oracle_only,omitempty"` // judge the implementation by the Spec oracle alone (no comparison with the model): for trying a changed backend
 }
 
@@ -71,6 +72,9 @@ func (s c11Scn) cfgName() string {
 	if v == "" {
 		v = "nover"
 	}
+	if s.Lock {
+		v += "+lock"
+	}
 	return n + "+" + v
 }
 
@@ -80,21 +84,27 @@ func (s c11Scn) class() string {
 
 const c11Bucket = "cbk"
 
-// Variants of the backend the model knows (lean/Vgw/Model/Crash.lean, Cfg.atomicReplace / Cfg.tagsFirst).
-// Set to true together with applying docs/C11-fix-1.diff / docs/C11-fix-2.diff to /repo (and drop the
-// known findings they repair); the environment variables C11_FIX1 / C11_FIX2 override for trying a patched binary.
+// Variants of the backend the model knows (lean/Vgw/Model/Crash.lean, Cfg.atomicReplace / Cfg.tagsFirst /
+// Cfg.copyTagsFirst / Cfg.holdFirst). Set to true together with applying docs/C11-fix-1.diff / docs/C11-fix-2.diff /
+// docs/C05-fix-4.diff to /repo (and drop the known findings they repair); the environment variables
+// C11_FIX1 / C11_FIX2 / C11_FIX4 override for trying another binary.
 const (
 	c11Fix1Applied = true
 	c11Fix2Applied = true
+	c11Fix4Applied = true // CopyObject hands the source's tags to PutObject (temp file) instead of storing them by name afterwards
+	c11Fix3Applied = true // docs/C11-fix-3.diff: PutObject writes legal hold / retention onto the temp file (C11_FIX3)
 )
 
 func c11Variant() string {
-	f1, f2 := c11Fix1Applied, c11Fix2Applied
+	f1, f2, f4 := c11Fix1Applied, c11Fix2Applied, c11Fix4Applied
 	if v := os.Getenv("C11_FIX1"); v != "" {
 		f1 = v == "1"
 	}
 	if v := os.Getenv("C11_FIX2"); v != "" {
 		f2 = v == "1"
+	}
+	if v := os.Getenv("C11_FIX4"); v != "" {
+		f4 = v == "1"
 	}
 	out := ""
 	if f1 {
@@ -102,6 +112,16 @@ func c11Variant() string {
 	}
 	if f2 {
 		out += ",tagsfirst=1"
+	}
+	if f4 {
+		out += ",copytagsfirst=1"
+	}
+	f3 := c11Fix3Applied
+	if v := os.Getenv("C11_FIX3"); v != "" {
+		f3 = v == "1"
+	}
+	if f3 {
+		out += ",holdfirst=1"
 	}
 	return out
 }
@@ -150,7 +170,11 @@ func (w *c11World) setup(s c11Scn) (c11Setup, error) {
 		}
 		return fmt.Errorf("setup %s: status %d %s %v", what, r.Status, r.Body, r.Err)
 	}
-	if err := must("create bucket", w.do(addr, gw.Req{Method: "PUT", Path: "/" + c11Bucket}), 200); err != nil {
+	mkb := gw.Req{Method: "PUT", Path: "/" + c11Bucket}
+	if s.Lock {
+		mkb.Headers = append(mkb.Headers, gw.Header{K: "x-amz-bucket-object-lock-enabled", V: "true"})
+	}
+	if err := must("create bucket", w.do(addr, mkb), 200); err != nil {
 		return st, err
 	}
 	setVer := func(status string) error {
@@ -190,8 +214,15 @@ func (w *c11World) setup(s c11Scn) (c11Setup, error) {
 		}
 	}
 	if s.Op == "uploadpart" || s.Op == "complete" {
-		r := w.do(addr, gw.Req{Method: "POST", Path: "/" + c11Bucket + "/" + gw.EncodePath(s.Key), Query: "uploads=",
-			Headers: []gw.Header{{K: "Content-Type", V: "text/mp"}, {K: "x-amz-meta-mp", V: "mpmeta"}}})
+		hs := []gw.Header{{K: "Content-Type", V: "text/mp"}, {K: "x-amz-meta-mp", V: "mpmeta"}}
+		if s.New.Tags != "" {
+			// tags requested at CreateMultipartUpload: kept with the upload, carried over by CompleteMultipartUpload
+			hs = append(hs, gw.Header{K: "x-amz-tagging", V: s.New.Tags})
+		}
+		if s.Lock && s.Op == "complete" {
+			hs = append(hs, gw.Header{K: "x-amz-object-lock-legal-hold", V: "ON"})
+		}
+		r := w.do(addr, gw.Req{Method: "POST", Path: "/" + c11Bucket + "/" + gw.EncodePath(s.Key), Query: "uploads=", Headers: hs})
 		if err := must("create upload", r, 200); err != nil {
 			return st, err
 		}
@@ -250,11 +281,18 @@ func (w *c11World) request(s c11Scn, st c11Setup) gw.Req {
 		if s.New.Tags != "" {
 			r.Headers = append(r.Headers, gw.Header{K: "x-amz-tagging", V: s.New.Tags})
 		}
+		if s.Lock {
+			r.Headers = append(r.Headers, gw.Header{K: "x-amz-object-lock-legal-hold", V: "ON"})
+		}
 		return r
 	case "delete":
 		return gw.Req{Method: "DELETE", Path: p}
 	case "copy":
-		return gw.Req{Method: "PUT", Path: p, Headers: []gw.Header{{K: "x-amz-copy-source", V: "/" + c11Bucket + "/" + gw.EncodePath(s.SrcKey)}}}
+		r := gw.Req{Method: "PUT", Path: p, Headers: []gw.Header{{K: "x-amz-copy-source", V: "/" + c11Bucket + "/" + gw.EncodePath(s.SrcKey)}}}
+		if s.Lock {
+			r.Headers = append(r.Headers, gw.Header{K: "x-amz-object-lock-legal-hold", V: "ON"})
+		}
+		return r
 	case "uploadpart":
 		return gw.Req{Method: "PUT", Path: p, Query: fmt.Sprintf("partNumber=%d&uploadId=%s", s.PartNo, st.UploadID), Body: []byte(s.New.Body)}
 	case "complete":
@@ -276,6 +314,7 @@ func c11Debug(a lib.Args, s c11Scn) error {
 	if err != nil {
 		return err
 	}
+	w.Lock = s.Lock
 	st, err := w.setup(s)
 	if err != nil {
 		return err
@@ -309,6 +348,7 @@ type c11Obs struct {
 	Get, List, Ver, Up, Other string
 	Blocked                   string // "0" | "1" | "?" (not measured)
 	Incons                    []string
+	Died                      string // the gateway stopped answering during the observation (which request)
 }
 
 func (o c11Obs) fields() []string { return []string{o.Get, o.List, o.Ver, o.Up, o.Other, o.Blocked} }
@@ -337,7 +377,7 @@ func (s c11Scn) cfgLine() string {
 	case "Suspended":
 		vs = "suspended"
 	}
-	return fmt.Sprintf("otmp=%s,sidecar=%s,verdir=%s,vstatus=%s,bucket=%s", b(!s.NoOTmp), b(s.Sidecar), b(s.Versioning != ""), vs, c11Bucket) + c11Variant()
+	return fmt.Sprintf("otmp=%s,sidecar=%s,verdir=%s,vstatus=%s,bucket=%s", b(!s.NoOTmp), b(s.Sidecar), b(s.Versioning != ""), vs, c11Bucket) + c11Variant() + map[bool]string{true: ",lock=1", false: ""}[s.Lock]
 }
 
 func (s c11Scn) reqLine() string {
@@ -361,8 +401,14 @@ func (s c11Scn) reqLine() string {
 		if len(s.New.Body) == 0 {
 			f = append(f, "falloc=0")
 		}
+		if s.Lock {
+			f = append(f, "hold=1")
+		}
 	case "copy":
 		f = append(f, "src="+s.SrcKey)
+		if s.Lock {
+			f = append(f, "hold=1")
+		}
 	case "uploadpart":
 		f = append(f, "upload=U0", fmt.Sprintf("part=%d", s.PartNo))
 	case "complete":
@@ -391,8 +437,18 @@ func (r *c11Run) observe(addr string) (c11Obs, error) {
 	var o c11Obs
 	o.Blocked = "?"
 	w, s, t := r.w, r.s, r.tok
+	// GetObjectLegalHold (object-lock buckets): ON reads as the stored value's token, OFF / nothing stored as "-"
+	holdTok := func(h string) string {
+		if h == "ON" {
+			return t.val("object-legal-hold", []byte{1})
+		}
+		if strings.HasPrefix(h, "!") {
+			return h
+		}
+		return "-"
+	}
 	getTok := func(key string) (string, c11ObjView, error) {
-		v := w.observeKey(addr, c11Bucket, key)
+		v := w.observeKey(addr, c11Bucket, key, key != s.Key)
 		switch {
 		case v.Status == 404:
 			return "404", v, nil
@@ -421,11 +477,19 @@ func (r *c11Run) observe(addr string) (c11Obs, error) {
 		if v.ETag != "" {
 			etag = t.val("etag", []byte(v.ETag))
 		}
-		return fmt.Sprintf("%s,%s,%s,%s,%s,%s", t.data(v.Body), etag, ct, meta, vid, tags), v, nil
+		out := fmt.Sprintf("%s,%s,%s,%s,%s,%s", t.data(v.Body), etag, ct, meta, vid, tags)
+		if s.Lock && key != s.Key {
+			out += "," + holdTok(v.Hold)
+		}
+		return out, v, nil
 	}
 	g, v, err := getTok(s.Key)
 	if err != nil {
 		return o, err
+	}
+	if v.Died != "" {
+		o.Get, o.Died = g, v.Died
+		return o, nil
 	}
 	if v.Status <= 0 {
 		// no HTTP answer at all: the gateway process is not there (killed from outside, port trouble on a shared
@@ -562,6 +626,15 @@ func (r *c11Run) observe(addr string) (c11Obs, error) {
 		g, _, _ := getTok(s.OtherKey)
 		o.Other = g + "|" + listTok(s.OtherKey)
 	}
+	if s.Lock && v.Status == 200 {
+		// the key's legal hold, asked last: an unreadable stored value has been seen to kill the gateway process
+		h := w.legalHold(addr, "/"+c11Bucket+"/"+gw.EncodePath(s.Key))
+		if h == "!dies" {
+			o.Died = "GetObjectLegalHold got no answer"
+			h = ""
+		}
+		o.Get += "," + holdTok(h)
+	}
 	return o, nil
 }
 
@@ -601,6 +674,11 @@ func (r *c11Run) emptyAndDelete(addr string) (status int, detail string) {
 			}
 		} else if keys, err := w.listKeys(addr, c11Bucket); err == nil {
 			for k := range keys {
+				if r.s.Lock {
+					// a held object cannot be deleted: release the legal hold first (any client may)
+					w.do(addr, gw.Req{Method: "PUT", Path: "/" + c11Bucket + "/" + gw.EncodePath(k), Query: "legal-hold=",
+						Body: []byte(`<LegalHold xmlns="http://s3.amazonaws.com/doc/2006-03-01/"><Status>OFF</Status></LegalHold>`)})
+				}
 				w.do(addr, gw.Req{Method: "DELETE", Path: "/" + c11Bucket + "/" + gw.EncodePath(k)})
 			}
 		}
@@ -611,6 +689,22 @@ func (r *c11Run) emptyAndDelete(addr string) (status int, detail string) {
 
 // ---------------------------------------------------------------- the scenario runner
 
+// withGatewayLog is withGateway for an f that wants to read what the gateway printed so far.
+func (w *c11World) withGatewayLog(f func(addr string, glog func() string) error) error {
+	g, err := w.startGateway()
+	if err != nil {
+		return err
+	}
+	defer g.Kill()
+	return f(g.Addr(), func() string {
+		time.Sleep(300 * time.Millisecond) // let a dying process finish printing
+		if g.Log == nil {
+			return ""
+		}
+		return g.Log.String()
+	})
+}
+
 // withGateway runs f against a fresh untraced gateway on the current storage.
 func (w *c11World) withGateway(f func(addr string) error) error {
 	g, err := w.startGateway()
@@ -618,7 +712,21 @@ func (w *c11World) withGateway(f func(addr string) error) error {
 		return err
 	}
 	defer g.Kill()
-	return f(g.Addr())
+	err = f(g.Addr())
+	if err != nil && strings.Contains(err.Error(), "does not answer") && g.Log != nil {
+		// the gateway process died or hung: its last words belong to the error
+		l := g.Log.String()
+		if i := strings.Index(l, "panic"); i >= 0 {
+			l = l[i:]
+			if len(l) > 1500 {
+				l = l[:1500]
+			}
+		} else if len(l) > 1500 {
+			l = l[len(l)-1500:]
+		}
+		err = fmt.Errorf("%v; gateway log tail: %s", err, l)
+	}
+	return err
 }
 
 func okStatus(op string, st int) bool {
@@ -686,6 +794,7 @@ func (r *c11Run) run(worker string) error {
 	if err != nil {
 		return err
 	}
+	w.Lock = s.Lock
 	r.w = w
 	defer os.RemoveAll(w.Work)
 	if w.Cfg.Sidecar != "" && w.Cfg.VersioningDir != "" {
@@ -859,6 +968,7 @@ func (r *c11Run) run(worker string) error {
 		next    string
 		reOK    bool
 		reWhat  string
+		dies    string // the gateway process died while serving the re-issued request
 		skipped string
 	}
 	var pts []point
@@ -944,6 +1054,9 @@ func (r *c11Run) run(worker string) error {
 				if e != nil {
 					return e
 				}
+				if p.obs.Died != "" {
+					return nil // emptied below, through a fresh gateway
+				}
 				st, _ := r.emptyAndDelete(addr)
 				p.obs.Blocked = "0"
 				if st != 204 {
@@ -953,28 +1066,65 @@ func (r *c11Run) run(worker string) error {
 			}); err != nil {
 				return err
 			}
-			// later operations on the crashed state: the same request again must succeed and take full effect
-			if err := w.restoreFrom(postDir); err != nil {
-				return err
+			if p.obs.Died != "" {
+				p.dies = p.obs.Died
+				if err := w.withGateway(func(addr string) error {
+					st, _ := r.emptyAndDelete(addr)
+					p.obs.Blocked = "0"
+					if st != 204 {
+						p.obs.Blocked = "1"
+					}
+					return nil
+				}); err != nil {
+					return err
+				}
 			}
-			if err := w.withGateway(func(addr string) error {
-				rr := w.do(addr, w.request(s, r.st))
-				p.reOK = okStatus(s.Op, rr.Status)
-				p.reWhat = fmt.Sprintf("%d %s", rr.Status, rr.ErrCode())
-				o2, e := r.observe(addr)
-				if e != nil {
-					return e
+			// later operations on the crashed state: the same request again must succeed and take full effect
+			// (a refusal is confirmed by a second attempt from the same crashed state: the machine is shared)
+			for try := 0; try < 2; try++ {
+				p.dies = p.obs.Died
+				if err := w.restoreFrom(postDir); err != nil {
+					return err
 				}
-				if p.reOK && (o2.Get != obsNew.Get || o2.List != obsNew.List) {
-					p.reOK = false
-					p.reWhat += " then " + o2.Get + " " + o2.List
+				if err := w.withGatewayLog(func(addr string, glog func() string) error {
+					rr := w.do(addr, w.request(s, r.st))
+					p.reOK = okStatus(s.Op, rr.Status)
+					p.reWhat = fmt.Sprintf("%d %s", rr.Status, rr.ErrCode())
+					if rr.Status <= 0 {
+						if l := glog(); strings.Contains(l, "panic") {
+							// no answer and the process has printed a panic: the crash left something on disk that kills the gateway
+							i := strings.Index(l, "panic")
+							l = l[i:]
+							if j := strings.IndexByte(l, '\n'); j > 0 {
+								l = l[:j]
+							}
+							p.dies = l
+							p.reOK = false
+							p.reWhat = "no answer: " + l
+							return nil
+						}
+					}
+					o2, e := r.observe(addr)
+					if e != nil {
+						return e
+					}
+					if o2.Died != "" {
+						p.dies = "after the re-issued request: " + o2.Died
+					}
+					if p.reOK && (o2.Get != obsNew.Get || o2.List != obsNew.List) {
+						p.reOK = false
+						p.reWhat += " then " + o2.Get + " " + o2.List
+					}
+					if !p.reOK && s.Op == "complete" && p.obs.Get == obsNew.Get {
+						p.reOK = true // the object is already complete; a leftover of the upload is judged by the oracle and must be abortable
+					}
+					return nil
+				}); err != nil {
+					return err
 				}
-				if !p.reOK && s.Op == "complete" && p.obs.Get == obsNew.Get {
-					p.reOK = true // the object is already complete; a leftover of the upload is judged by the oracle and must be abortable
+				if p.reOK {
+					break
 				}
-				return nil
-			}); err != nil {
-				return err
 			}
 			pts = append(pts, p)
 		}
@@ -1033,6 +1183,12 @@ func (r *c11Run) run(worker string) error {
 		if s.OracleOnly {
 			modelFS, modelObs, obsOfImplFS = p.fs, p.obs.String(), p.obs.String()
 		}
+		if p.obs.Died != "" {
+			// the gateway died while it was being asked: there is no complete observation to compare or to judge;
+			// the death itself is the finding (`gateway-dies`)
+			modelObs, obsOfImplFS, verdict = p.obs.String(), p.obs.String(), "ok"
+			p.obs.Incons = nil
+		}
 		if modelFS != p.fs {
 			r.fail("correspondence", "C11:fs:"+s.Op+"/"+s.cfgName(), "on-disk tree after the kill differs from the model's file system after the same steps", extra, p.fs, modelFS)
 		}
@@ -1055,6 +1211,10 @@ func (r *c11Run) run(worker string) error {
 			cur["blocks-retry"] = true
 			extra["retry"] = p.reWhat
 		}
+		if p.dies != "" {
+			delete(cur, "blocks-retry")
+			cur["gateway-dies"] = true
+		}
 		var ds []string
 		for d := range cur {
 			ds = append(ds, d)
@@ -1067,7 +1227,12 @@ func (r *c11Run) run(worker string) error {
 			if s.KillAt != 0 && p.n+1 != s.KillAt {
 				continue
 			}
-			r.fail("property", "crash:"+s.Op+":"+d+"@"+origin[d], "after a kill in this window the API shows what the property excludes ("+verdict+"; old="+obsOld.String()+" new="+obsNew.String()+")", extra, p.obs.String(), modelObs)
+			sig := "crash:" + s.Op + ":" + d + "@" + origin[d]
+			if d == "gateway-dies" {
+				sig = "gateway-dies:" + s.Op + "@" + origin[d] // a process-level failure, kept apart from the families of view defects
+				extra["dies"] = p.dies
+			}
+			r.fail("property", sig, "after a kill in this window the API shows what the property excludes ("+verdict+"; old="+obsOld.String()+" new="+obsNew.String()+")", extra, p.obs.String(), modelObs)
 		}
 		prevDefects = cur
 	}
@@ -1119,6 +1284,7 @@ func c11Scenarios(a lib.Args) []c11Scn {
 		}
 		return s
 	}
+	lock := func(s c11Scn) c11Scn { s.Lock = true; return s }
 	flat, nested := "k"+word(""), "d/e/k"+word("")
 	short := "d/k" + word("")
 	var out []c11Scn
@@ -1133,6 +1299,10 @@ func c11Scenarios(a lib.Args) []c11Scn {
 		mk("uploadpart", short, "absent", false, false, "", false),
 		mk("uploadpart", short, "present", true, false, "", false),
 		mk("complete", flat, "absent", false, false, "", false),
+		mk("complete", flat, "absent", false, false, "", true),        // upload created with tags, new key
+		mk("complete", short, "present", false, false, "", true),      // … over an existing tagged object
+		lock(mk("put", flat, "absent", false, false, "", true)),       // object-lock bucket: PutObject with a legal hold
+		lock(mk("complete", flat, "absent", false, false, "", false)), // … an upload created with a legal hold
 		mk("put", short, "present", false, false, "Enabled", false),
 		mk("delete", short, "present", false, false, "Enabled", false),
 		mk("put", short, "present", false, true, "", false),
@@ -1176,6 +1346,9 @@ func c11Scenarios(a lib.Args) []c11Scn {
 						}
 						key := []string{flat, short, nested}[r.Intn(3)]
 						out = append(out, mk(op, key, pre, noOTmp, sidecar, ver, r.Bool()))
+						if ver == "" && (op == "put" || op == "copy" || op == "complete") {
+							out = append(out, lock(mk(op, key, pre, noOTmp, sidecar, ver, r.Bool())))
+						}
 					}
 				}
 			}
